@@ -335,6 +335,10 @@ func drawRequest(t *rapid.T, info *RPCInfo, m *rt.Method, o valgen.Opts, safe bo
 			rm.Set(fd, safePathValue(t, fd, "path."+string(fd.Name())))
 			continue
 		}
+		// a path segment cannot be absent: a variable bound to a proto3 optional field always carries a value
+		if fd.HasPresence() && !rm.Has(fd) {
+			rm.Set(fd, safePathValue(t, fd, "path."+string(fd.Name())+"#set"))
+		}
 		// path-bound values must be non-empty (the property excludes the empty string)
 		if fd.Kind() == protoreflect.StringKind && rm.Get(fd).String() == "" {
 			rm.Set(fd, protoreflect.ValueOfString(valgen.String(t, "path."+string(fd.Name())+"#ne")+"x"))
